@@ -173,6 +173,18 @@ def run_plain(case, outcome):
         def message_from_device(self, msg):
             log.append("c%d" % self.ident)
 
+    from indi.device.snoop import SnoopingClient
+
+    class RecSnoop(SnoopingClient):
+        """the library's own in-process client (a BaseClient that knows no device yet) as a routing endpoint"""
+
+        def __init__(self, ident):
+            super().__init__(None)
+            self.ident = ident
+
+        def message_from_device(self, msg):
+            log.append("c%d" % self.ident)
+
     router = Router()
     devs, clis = {}, {}
 
@@ -183,7 +195,7 @@ def run_plain(case, outcome):
 
     def cli(i):
         if i not in clis:
-            clis[i] = RecCli(i)
+            clis[i] = RecSnoop(i) if i % 2 else RecCli(i)
         return clis[i]
 
     traces = []
